@@ -10,6 +10,11 @@ CLAIMS = {
    note="Trusted: Lean kernel + propext/Classical.choice/Quot.sound; gen_tables.py translator; serialiser/driver; hand-written Py.grad vector rules validated (not proved) against the code by the correspondence run; regular points only (singular set is C19); IEEE rounding not modelled; scalar constants only.",
    technique="Lean 4 proof by mutual structural induction over a translated+hand-written model; differential correspondence check; dual-number failing-input search",
    design_ref="DESIGN.md §5 C02"),
+ "C03": dict(
+   text="Machine-checked proof (Lean 4 + Mathlib): `jacRow_sound` — each of the eight jacobian_row shortcuts (BinaryOp wrappers, VectorSum, DotProduct incl. overlapping slices, LinearCombination, VectorPowerSum, VectorUnarySum, MatrixSum, QuadraticForm) returns, for ANY variable order / superset / same-name clones, a row whose j-th entry denotes the same number as gradient(e, V[j]); `compileJacobian_entries` / `compileGradient_entries` — whichever of the closures is selected (vectorised power/unary full & sparse, constant, scaled-variable, general), entry (i,j) at x equals ⟦grad V[j] es[i]⟧; `compileJacobian_constant_no_param` — the pre-computed constant path never freezes a Parameter; `*_true_partial` — with C02 each compiled entry is a genuine partial derivative at regular points; `unaryTables_agree` — the two regenerated per-operator tables coincide. Tied to the code by exact structural comparison of compute_jacobian rows, the path actually taken (callable __name__), and numeric entries; oracle = dual-number Jacobian on the real code over all orderings of vector elements + foreign variables.",
+   note="Trusted: Lean kernel + standard axioms; hand-written model of the jacobian_row family and path selection validated by the correspondence run; element closures of the general path are taken at their C01 specification; float rounding not modelled; regular points only for the true-partial statements.",
+   technique="Lean 4 proof of shortcut-vs-general equality and path-wise entry correctness; structural + path-name + numeric correspondence; dual-number oracle",
+   design_ref="DESIGN.md §5 C03"),
  "C04": dict(
    text="Machine-checked proof (Lean 4 + Mathlib MvPolynomial): `degree_sound` — whenever the model of optyx's classifier reports degree d, the expression denotes, for every parameter store, a polynomial of total degree ≤ d in its variables (all node kinds; corollaries `isLinear_affine`, `isQuadratic_deg2`); `degreeIter_eq` / `computeDegree_threshold_irrelevant` — the explicit-stack traversal (phases, early exits) returns exactly what the recursive one returns, for every tree and every switch threshold; `degree_property_cache` — the per-node slot with its -1 sentinel returns the same answer on the first and on all later reads. Tied to the code by exact comparison of every observable of the classification (both traversals, shipped / zero / huge thresholds, depth estimate, slot contents, is_linear / is_quadratic) with the executable model on cell-cover + random trees; oracle = exact (d+1)-th finite differences along rational lines through an independent Fraction interpreter.",
    note="Trusted: Lean kernel + standard axioms; hand-written model of analysis.py's degree functions validated by the correspondence run; x / Constant(0) excluded by NoConstDivZero (ℝ totalises it); array-valued constants outside the syntax; lru_cache treated as a transparent memo (C14).",
@@ -20,6 +25,31 @@ CLAIMS = {
    note="Trusted: Lean kernel + standard axioms; model of the extraction functions validated by the correspondence run; the variable list is Problem.variables (order and duplicate-freeness are C16); float rounding of coefficient arithmetic not modelled (inputs are small dyadic rationals).",
    technique="Lean 4 proof of extraction soundness + fast-path refinement; exact rational differential correspondence; Fraction re-evaluation oracle",
    design_ref="DESIGN.md §5 C05"),
+ "C12": dict(
+   text="Machine-checked proof (Lean 4): `denote_substParams` (any number algebra) and `grad_substParams` (ℝ) — evaluating / differentiating a model under the current parameter store equals doing so on the model with each parameter replaced by a constant of its current value; `param_not_constant`, `param_has_no_degree` — a Parameter is never a literal Constant (so never frozen into a pre-computed Jacobian) and never has a degree (so never enters LP data); `artefacts_independent_of_store`, `jac_call_substParams`, `param_refinement_partial` — over every history of set / evaluate / compiled call / Jacobian call, stored artefacts never capture a parameter value and each observation equals the observation on the fresh constant model. Tied to the code by history correspondence (exact Jacobian path names, values) and by the fresh-constant-model oracle on the real code incl. solves.",
+   note="Partial in one respect, stated in the Lean file: the Hessian observation of the full refinement is covered by the oracle, not by the theorem. Singular points excluded (`RegularExponents`: a Parameter exponent at base 0). Trusted: Lean kernel + standard axioms, state-machine model validated by the correspondence run.",
+   technique="Lean 4 refinement proof over operation histories + substitution lemmas; history correspondence; fresh-constant-model oracle",
+   design_ref="DESIGN.md §5 C12"),
+ "C13": dict(
+   text="Machine-checked proof (Lean 4, induction over operation lists): `inv_init`, `inv_step`, `inv_run` — every populated per-problem cache (_variables, _solver_cache incl. the lazily added Hessian, _lp_cache, _is_linear_cache) was computed from the current objective, sense and constraints, and bounds are always re-read, after EVERY history of minimize / maximize / subject_to (single, list, raising) / bound assignment / solve (any method, any solver answer, incl. the SLSQP retry) / reads; `solve_eq_fresh` — each solve hands the back-end exactly the inputs a fresh Problem on the current model would; counterexample theorems show the invariant fails on the pre-repair models (F12, F22). Tied to the code by running histories on the real Problem with both solver seams stubbed and comparing, after every operation, cache population, the model state each cached object was created in, stored bounds and every captured solver input with the model and with a fresh Problem.",
+   note="Expressions are abstract tags in the state machine (the property is about staleness, not about what is computed); strict/integer handling and exceptions inside the back-ends are C18/C20. Trusted: Lean kernel + standard axioms, state-machine model validated by the correspondence run.",
+   technique="Lean 4 invariant proof by induction over histories; exhaustive short + random long history correspondence; fresh-problem differential",
+   design_ref="DESIGN.md §5 C13"),
+ "C14": dict(
+   text="Machine-checked proof (Lean 4): `cache_transparent` / `cache_transparent_run` — for ANY key equivalence, function, capacity and eviction policy that never invents entries (CPython's LRU is one: `lru_policy_sound`), every lookup returns a value equivalent to a fresh computation provided the cached function respects key equality; instances `respects_degree`, `respects_gradient` (name-equal leaves have equal derivatives), `respects_compile` (with the bare-Parameter bypass) give `gradient_cached_transparent`, `compile_cached_transparent`; `compile_cache_param_collision` is the counterexample without the bypass (F13). Tied to the code by comparing the Lean LRU policy with functools.lru_cache hit/miss sequences, the regenerated cache sizes with cache_info(), the measured __eq__/__hash__ facts, and by the fresh-subprocess differential after adversarial prefixes up to capacity + 50.",
+   note="Identity is over-approximated by structural equality incl. object ids (stronger theorem). Trusted: Lean kernel + standard axioms; lru_cache holds strong references to its keys (CPython).",
+   technique="Lean 4 generic cache-transparency proof + instances; LRU trace correspondence; fresh-process differential",
+   design_ref="DESIGN.md §5 C14"),
+ "C17": dict(
+   text="Machine-checked proof (Lean 4 + Mathlib): `hess_second_partial` — at every regular point of a well-formed expression the symbolic Hessian entry gradient(gradient(e, vi), vj) IS the iterated partial derivative ∂/∂vj(∂⟦e⟧/∂vi) (C02 twice, using `grad_wf`, `grad_regular` — differentiation preserves well-formedness and regular points — and `regular_open` — regularity is open along coordinate lines; no hypotheses beyond WF and Regular); `compileHessian_general_entries`, `compileHessian_symm` (H = Hᵀ for every closure, in any number algebra), `hessFast_eq_general` (the diagonal shortcuts for VectorPowerSum / VectorUnarySum equal the general path entry by entry). Tied to the code by structural comparison of compute_hessian, closure names, numeric entries over all orderings of vector elements + foreign variables; oracle = nested dual numbers.",
+   note="Not proved: that the mirrored lower triangle equals the derivative taken in the other order (Schwarz for C² functions — a fact of analysis, tested numerically). Trusted: Lean kernel + standard axioms; model of compile_hessian validated by the correspondence run; regular points only.",
+   technique="Lean 4 proof (second application of the derivative theorem + preservation/openness lemmas); structural + numeric correspondence; nested-dual oracle",
+   design_ref="DESIGN.md §5 C17"),
+ "C19": dict(
+   text="Machine-checked proof (Lean 4) over an explicit IEEE special-value domain (NaN, ±∞, ±0, non-zero reals): `sanitize_spec` (nan→0, ±∞→±1e16 read from the regenerated constant, finite unchanged, with or without the all-finite shortcut), `sanitize_finite`, `derivative_outputs_finite` (every gradient / Jacobian / Hessian closure returns finite entries at finite x), `paths_agree_on_specials` (vectorised and general bodies give the same special value, after sanitising for all ten operators and before it for all but abs), `regular_unchanged`. Tied to the code by running every derivative closure kind at singular points × positions and comparing the class (0 / ±1e16 / finite) exactly and finite values numerically; the special-value rule tables are themselves checked against NumPy; oracle = np.isfinite on the real outputs and vectorised-vs-general agreement.",
+   note="Overflow (exp(1000)) is not a singular point of the derivative and is outside the statement. Trusted: Lean kernel + standard axioms; IEEE/C99 rule tables of the model validated against NumPy on this platform.",
+   technique="Lean 4 proof over a special-value algebra; exhaustive singular-point correspondence; isfinite oracle",
+   design_ref="DESIGN.md §5 C19"),
  "C08": dict(
    text="Machine-checked proof (Lean 4 + Mathlib, any linearly ordered field): `lp_pipeline_faithful` — for ANY function linprog that meets the LP contract on the data it is given, optyx's LP path returns the verdict (optimal / infeasible / unbounded) and optimal value of the extracted model in the user's orientation (feasible sets coincide because matrices and bounds are passed through unchanged — `feasible_iff`; max f = −min(−f); un-negation and the constant term restore the value; status chain total and equal to the regenerated table — `lpStatus_table`). Tied to the code by spying the real scipy.optimize.linprog seam: keyword arguments passed and Solution returned are compared exactly with the executable model on every solve; the property's own differential (independently assembled matrix form, same solver, every writing style, 5 methods, solved twice) is the oracle that yields the failing input.",
    note="Partial in one sense: the inside of HiGHS/linprog is trusted through an explicit hypothesis (LinprogContract), never an axiom. 'Extracted data denote the user's model' is property C05. Trusted: Lean kernel + standard axioms, serialiser/driver, model of the solve_lp glue validated by the seam correspondence.",
